@@ -145,6 +145,44 @@ def compare_tables(chk, label, dump, zones, pols):
     return n
 
 
+def compare_with_source(chk, label, dump, lines, scope):
+    """decoded tables against an independent reading (vf/tzparse.py) of the source lines themselves: every standard offset,
+    fixed DST shift, UNTIL time and suffix of every era and every AT time, suffix and SAVE of every rule, by position"""
+    from .. import tzparse
+    rules, zones, _links = tzparse.parse(lines)
+    n = 0
+    for z in dump['zones']:
+        src = zones.get(z['name'])
+        if src is None or len(src) != len(z['eras']):
+            continue      # (eras dropped before start_year etc. are the business of compare_tables / C03)
+        for i, (e, w) in enumerate(zip(z['eras'], src)):
+            n += 1
+            want_off = w['off'] // 60 if scope == 'extended' else None
+            checks = []
+            if want_off is not None and w['off'] % 60 == 0:
+                checks.append(('offsetMinutes', e['offsetMinutes'], want_off))
+            if w['rules'][0] == 'fixed' and w['rules'][1] % 900 == 0:
+                checks.append(('deltaMinutes', e['deltaMinutes'], w['rules'][1] // 60))
+            if w['until'] is not None and w['until']['at'] % 60 == 0 and scope == 'extended':
+                checks.append(('untilMinutes', e['untilMinutes'], w['until']['at'] // 60))
+                checks.append(('untilSuffix', e['untilSuffix'], w['until']['suf']))
+            for f, got, want in checks:
+                if got != want:
+                    chk.violation('%s:source:era:%s' % (label, f), 'zone %s era %d: the table holds %s = %r, the source line says %r' % (z['name'], i, f, got, want), {'zone': z['name'], 'era': i, 'field': f})
+            if w['rules'][0] == 'named' and e['policy'] is not None and e['policy'] >= 0:
+                got_rules = [r for r in dump['policies'][e['policy']] if r['fromYear'] != 1873]      # (the synthetic anchor rule is not a source line)
+                src_rules = rules.get(w['rules'][1], [])
+                if len(got_rules) != len(src_rules):
+                    continue
+                for j, (a, b) in enumerate(zip(got_rules, src_rules)):
+                    n += 1
+                    for f, got, want in (('atMinutes', a['atMinutes'], b['at'] // 60 if b['at'] % 60 == 0 else None), ('atSuffix', a['atSuffix'], b['suf']),
+                                         ('deltaMinutes', a['deltaMinutes'], b['save'] // 60 if b['save'] % 900 == 0 else None), ('fromYear', a['fromYear'], b['fr'])):
+                        if want is not None and got != want:
+                            chk.violation('%s:source:rule:%s' % (label, f), 'policy %s rule %d: the table holds %s = %r, the source line says %r' % (w['rules'][1], j, f, got, want), {'policy': w['rules'][1], 'rule': j, 'field': f})
+    return n
+
+
 def dump_generated(work, out_basic, out_ext, name):
     inc = os.path.join(work, 'inc-' + name)
     shutil.rmtree(inc, ignore_errors=True)
@@ -214,6 +252,7 @@ def run(tier):
         for scope, db in (('basic', 'basic'), ('extended', 'extended')):
             zones, pols = expected_tables(res[scope], scope)
             entries += compare_tables(chk, '%s:%s' % (name, scope), dumps[db], zones, pols)
+            entries += compare_with_source(chk, '%s:%s' % (name, scope), dumps[db], lines, scope)
             progs += 1
         # (c) the shipped tables are exactly what the generator produces from their recorded lines
         if name.startswith('shipped-'):
